@@ -4,6 +4,9 @@ kind from the operation, before_sleep and the sleeper, thrown into hand-driven c
 suspension points; nested RetryExhaustedError and CircuitOpenError; aborts), gaps around
 recovery_timeout.  Oracle: after a call has ended the real breaker must not have a probe in flight, and
 an admitted call must have reported exactly once."""
+import json
+
+import common
 import policy_common as pc
 
 LEVEL = "proof"
@@ -11,13 +14,86 @@ OPTS = {"p_special": 0.45, "specials": ["A", "C", "C", "C", "C", "N", "N"], "p_s
         "p_bs": 0.5, "p_nested_coe": 0.15, "p_no_retry": 0.3}
 
 
+FAULT_SITES = ("attempt_start", "attempt_end", "classifier", "result_classifier", "strategy", "before_sleep", "on_metric", "on_log",
+               "abort_if", "handler", "sleeper")
+FAULT_OPS = ([["V"]], [["R", "TRANSIENT"], ["V"]], [["V", "TRANSIENT"], ["V"]], [["R", "TRANSIENT"], ["R", "TRANSIENT"]],
+             [["R", "PERMANENT"]], [["V", "SERVER_ERROR"], ["V", "SERVER_ERROR"]])
+
+
+def fault_scenarios(tier):
+    """every callback site x which invocation raises x what it raises x entry point x outcome script x breaker state at admission"""
+    out = []
+    for a in (False, True):
+        for mode in ("call", "execute"):
+            for retry in (True, False):
+                for pre in ("closed", "half_open"):
+                    for ops in FAULT_OPS:
+                        for where in FAULT_SITES:
+                            for nth in (1, 2, 3) if tier == "thorough" else (1, 2):
+                                for exc in ("value", "keyboard", "genexit", "sysexit") + (("cancelled",) if a else ()):
+                                    out.append({"async": a, "mode": mode, "retry": retry, "max_attempts": 2, "ops": ops, "pre": pre,
+                                                "fault": {"where": where, "nth": nth, "exc": exc}})
+    return out
+
+
+def fault_oracle(sc, r):
+    """C08 on one faulted call: an admitted call has told the breaker that it is over, no probe slot is left taken, and after the
+    recovery timeout the next call is admitted"""
+    if r["end"][0] == "driver_error":
+        return "driver error: " + r["end"][1][-300:]
+    log = r["log"]
+    if not log:
+        # ended before asking for admission (abort_if of a policy without retry is polled first): nothing to settle
+        return None if r["next_admitted"] else "the call never asked for admission, yet the next call is rejected"
+    if log[0][0] != "allow":
+        return f"the call did not ask for admission first: {log[:2]}"
+    settles = [e for e in log[1:] if e[0] in ("success", "failure", "cancel")]
+    what = f"{'async ' if sc['async'] else ''}{sc['mode']}() {'with' if sc['retry'] else 'without'} retry, {sc['fault']['exc']} raised by " \
+           f"invocation {sc['fault']['nth']} of {sc['fault']['where']}, breaker {sc['pre']} at admission: ended with {r['end'][:2]}"
+    if log[0][1] and not settles:
+        return what + "; the admitted call never told the breaker that it is over"
+    if not log[0][1] and settles:
+        return what + f"; rejected, yet reported {settles[0]}"
+    if r["state"] == ["HALF_OPEN", True]:
+        return what + "; the breaker is left half-open with a probe in flight"
+    if not r["next_admitted"]:
+        return what + "; after recovery_timeout_s more, the next call is still rejected"
+    return None
+
+
+def fault_part(chk):
+    scs = fault_scenarios(chk.tier)
+    res = common.run_driver("c08_fault_driver", scs, jobs=8)
+    bad = [(s, r, m) for s, r in zip(scs, res) for m in [fault_oracle(s, r)] if m]
+    fired = sum(1 for s, r in zip(scs, res) if r["end"][0] == "raise" or r["counts"].get(s["fault"]["where"], 0) >= s["fault"]["nth"])
+    chk.coverage["fault_injection_outside_model"] = {
+        "scenarios": len(scs), "fault_reached": fired, "sites": list(FAULT_SITES),
+        "note": "oracle only (no theorem covers raising callbacks other than before_sleep/sleeper): admitted => settled, no probe left "
+                "in flight, next call admitted after the recovery timeout",
+    }
+    chk.coverage["evaluations"] = chk.coverage.get("evaluations", 0) + len(scs)
+    if bad:
+        s, r, m = bad[0]
+        chk.violation({"kind": "oracle", "part": "fault-injection", "what": m, "fault_scenario": s, "observed": r,
+                       "driver": "c08_fault_driver", "also_failing": len(bad)})
+
+
 def run(chk):
     chk.assumptions += [
         "calls on one breaker are sequential here (concurrent calls: C07/C17); clock advances only in operation and sleeper",
-        "raising attempt hooks / classifiers / strategies are outside the runner model (Props/C08.v header)",
+        "raising attempt hooks / classifiers / strategies / observability hooks are outside the retry-loop model (Props/C08.v header); "
+        "they are injected on the implementation and judged by the property oracle only (coverage.fault_injection_outside_model)",
     ]
     pc.run_policy_check(chk, "C08", "proj_P09", OPTS)
+    fault_part(chk)
 
 
 def replay(path):
+    r = json.load(open(path))
+    if "fault_scenario" in r:
+        o = common.run_driver("c08_fault_driver", [r["fault_scenario"]])[0]
+        m = fault_oracle(r["fault_scenario"], o)
+        print("observed:", json.dumps(o)[:800])
+        print("oracle:", m or "holds")
+        return 1 if m else 0
     return pc.replay_policy(path)
